@@ -10,7 +10,9 @@ EXPLANATION = (
     "(R20.2) add_constraints sorts the table ascending by gap with a stable sort and then de-duplicates by gap, both "
     "after the last push, so lookups see a sorted, first-wins table; (R20.3) both compatible() impls return true only "
     "through validate(|epoch gap|, dist_in_2r(last predicted boxes of the two tracks)) == true (conjunction); (R20.4) "
-    "dist_in_2r and too_far measure the centre distance between the two boxes against the sum of both bounding radii.")
+    "dist_in_2r and too_far measure the centre distance between the two boxes against the sum of both bounding radii; "
+    "(R20.6) who-may-write: the constraint table is mutated only by add_constraints (and helpers private to it), the "
+    "builder hands its whole input to it.")
 NOT_DECIDED = ["tracker-level equivalence with/without non-binding constraints (two-run comparison)",
                "numeric value of the centre distance"]
 ASSUMPTIONS = ["std sort_by is stable and dedup_by keeps the first of equal runs", "rustc nightly MIR construction"]
@@ -24,6 +26,7 @@ def run(ctx):
     _wiring(ctx)
     r1(ctx)
     r2(ctx)
+    r6(ctx)
     ctx.rule('R20.3', 'compatible() true only through validate(gap, dist_in_2r(last predicted boxes))')
     ctx.rule('R20.3s', '(shared with C04) same scene')
     ctx.rule('R20.3i', '(shared with C03) idle bound')
@@ -183,6 +186,62 @@ def r4(ctx):
             ctx.check(ok, R, b, '%s:centre-difference-%s' % (name, coord), [repr(m) for m in mine],
                       '%s does not use the difference of the two boxes\' %s' % (name, coord))
     ctx.floor(R, n, 6)
+
+
+def r6(ctx):
+    """who-may-write: the constraint table is only ever changed by add_constraints (the one place that validates,
+    sorts stably and de-duplicates first-wins); any other writer can reorder, overwrite or drop limits."""
+    from lib import field_mutators
+    import wiring
+    R = 'R20.6'
+    ctx.rule(R, 'only add_constraints (and helpers private to it) mutates the constraint table')
+    F = ctx.F
+    owner = ctx.anchor(R, STC + '::add_constraints')
+    if owner is None:
+        return
+    muts = field_mutators(F, 'SpatioTemporalConstraints', 'constraints', skip=wiring.skip_body)
+    callers = F.callers()
+    allowed = {owner.npath}
+
+    def root_fn(b):
+        # closures belong to the function that defines them
+        p = b.npath
+        while '::{closure#' in p:
+            p = p[:p.rindex('::{closure#')]
+        return p
+    changed = True
+    while changed:
+        changed = False
+        for b in muts:
+            r = root_fn(b)
+            if r in allowed:
+                continue
+            cs = [root_fn(cb) for cb, _ in callers.get(r, [])]
+            if cs and all(c in allowed for c in cs):
+                allowed.add(r)
+                changed = True
+    n = 0
+    seen_owner = False
+    for b, sites in sorted(muts.items(), key=lambda kv: kv[0].npath):
+        r = root_fn(b)
+        n += 1
+        seen_owner = seen_owner or r == owner.npath
+        ctx.read(b)
+        ctx.check(r in allowed, R, b, 'writer:' + r.rsplit('::', 1)[-1], '%d write site(s)' % len(sites),
+                  '%s changes SpatioTemporalConstraints::constraints directly (%s at %s) instead of going through '
+                  'add_constraints: the table can lose its order, its first-wins rule or entries' % (
+                      r, sites[0][0], sites[0][1]), sites[0][1])
+    ctx.check(seen_owner, R, owner, 'add_constraints-writes-the-table', '', 'add_constraints no longer writes the table')
+    # the builder form goes through add_constraints with all of its input
+    bb = ctx.anchor(R, STC + '::constraints')
+    if bb is not None:
+        eb = ExprBuilder(bb)
+        cs = bb.find_calls(STC + '::add_constraints')
+        n += 1
+        ok = len(cs) == 1 and eb.arg(cs[0], 1).has_place(root=('param', 2))
+        ctx.check(ok, R, bb, 'builder-delegates-to-add_constraints', repr(eb.arg(cs[0], 1))[:80] if cs else '',
+                  'the builder `constraints()` does not hand its whole input to add_constraints')
+    ctx.floor(R, n + 1, 3)
 
 
 def _wiring(ctx):
